@@ -36,10 +36,17 @@ def columnDDLGuarded (has : Str → Bool) (t : Str) (cols : List (Str × ColumnI
 /-! ### the SQLite dialector's HasColumn: a LIKE match on the table's CREATE statement (driver code, outside /repo;
     tied by the correspondence suite `mig.textmatch` against the real driver) -/
 
-/-- `p` occurs in `s` (SQL `s LIKE '%p%'` for a pattern without wildcards) -/
+/-- `s` starts with a text the LIKE pattern `p` matches: `_` in the pattern stands for any one character (an underscore
+    inside a column name IS that wildcard for the driver's query); the generated names contain no `%` -/
+def likePrefix : Str → Str → Bool
+  | _, [] => true
+  | [], _ :: _ => false
+  | c :: cs, p :: ps => (p = '_' || p = c) && likePrefix cs ps
+
+/-- SQL `s LIKE '%p%'` for a pattern whose only wildcard is `_` -/
 def isInfix (p : Str) : Str → Bool
   | [] => p.isEmpty
-  | c :: cs => hasPrefix (c :: cs) p || isInfix p cs
+  | c :: cs => likePrefix (c :: cs) p || isInfix p cs
 
 /-- gorm.io/driver/sqlite `Migrator.HasColumn` (migrator.go lines 58-76) over the text `sql` of the table's sqlite_master
     row: `sql LIKE '%"name" %' OR '%name %' OR '%`name`%' OR '%[name]%' OR '%\tname\t%'`; LIKE folds ASCII case -/
